@@ -95,6 +95,11 @@ pub struct Medium {
     /// is invisible; writing under one name and reading under another is not.)
     #[serde(default)]
     pub check_names: bool,
+    /// bincode / postcard-like (only with `Framing::Positional`): no structure at all on the wire,
+    /// a record is its leaves one after the other and the reader gets as many as it asks for
+    /// (`flat.rs`). Read faults, which are about records and keys, do not apply.
+    #[serde(default)]
+    pub untyped: bool,
 }
 
 impl Medium {
@@ -107,7 +112,11 @@ impl Medium {
         size_hint: SizeHint::None,
         filter_fields: false,
         check_names: false,
+        untyped: false,
     };
+    pub fn flat(&self) -> bool {
+        self.framing == Framing::Positional && self.untyped
+    }
     pub fn keyed(&self) -> bool {
         self.framing != Framing::Positional
     }
@@ -120,6 +129,7 @@ impl Medium {
             | (self.size_hint as u64) << 8 // two bits
             | (self.filter_fields as u64) << 10
             | (self.check_names as u64) << 11
+            | (self.untyped as u64) << 12
     }
 }
 
